@@ -636,6 +636,118 @@ fn borrowed_case(rep: &mut Report, seed: u64, i: u64) {
     }
 }
 
+// Borrowed strings / bytes that reach the visitor through `deserialize_any`
+// (serde buffers untagged, internally tagged and flattened content first).
+#[derive(Serialize, Deserialize, Debug, PartialEq)]
+#[serde(untagged)]
+enum BorrowUntagged<'a> {
+    N(u32),
+    S(&'a str),
+    P {
+        #[serde(borrow)]
+        k: &'a str,
+        v: i8,
+    },
+}
+
+#[derive(Serialize, Deserialize, Debug, PartialEq)]
+#[serde(tag = "t")]
+enum BorrowIntTag<'a> {
+    A {
+        #[serde(borrow)]
+        s: &'a str,
+        n: u16,
+    },
+    B {
+        #[serde(borrow, with = "bytes_ref")]
+        b: &'a [u8],
+    },
+}
+
+#[derive(Serialize, Deserialize, Debug, PartialEq)]
+struct BorrowFlatInner<'a> {
+    s: &'a str,
+    #[serde(with = "bytes_ref")]
+    b: &'a [u8],
+}
+
+#[derive(Serialize, Deserialize, Debug, PartialEq)]
+struct BorrowFlat<'a> {
+    id: u8,
+    #[serde(flatten, borrow)]
+    inner: BorrowFlatInner<'a>,
+}
+
+#[derive(Serialize, Deserialize, Debug, PartialEq)]
+#[serde(tag = "k", content = "c")]
+enum BorrowAdj<'a> {
+    S(&'a str),
+    T(u8, #[serde(borrow)] &'a str),
+}
+
+fn borrowed_any_case(rep: &mut Report, seed: u64, i: u64) {
+    let mut rng = Rng::derive("c17/borrowed-any", seed, 0, i);
+    let s: String = g(&mut rng);
+    let b = gen::gen_bytes(&mut rng, false);
+    let rp = vec!["c17".into(), "--seed".into(), seed.to_string(), "--replay".into(), "BorrowedAny".into(), i.to_string()];
+    fn rt<'a, T>(rep: &mut Report, name: &str, v: &T, rp: &[String], ptrs: &dyn Fn(&T) -> Vec<(*const u8, usize)>, buf: &'a mut Vec<Box<[u8]>>)
+    where
+        T: Serialize + Deserialize<'a> + PartialEq + std::fmt::Debug,
+    {
+        rep.eval();
+        let bytes = match mon::guarded(|| minicbor_serde::to_vec(v).map_err(|e| e.to_string())) {
+            Err(p) => return viol(rep, name, "ser-panic", "", p.message, &[], rp),
+            Ok(Err(e)) => return viol(rep, name, "ser-error", "", e, &[], rp),
+            Ok(Ok(b)) => b,
+        };
+        buf.push(bytes.clone().into_boxed_slice());
+        let input: &'a [u8] = unsafe { std::mem::transmute::<&[u8], &'a [u8]>(&buf[buf.len() - 1][..]) };
+        let r = mon::guarded(|| {
+            let w: T = minicbor_serde::from_slice(input).map_err(|e| format!("error: {}", e))?;
+            if &w != v {
+                return Err(format!("value differs: {:?}", w));
+            }
+            for (p, n) in ptrs(&w) {
+                if !mon::within(input, p, n) {
+                    return Err("a borrowed field does not point into the input".to_string());
+                }
+            }
+            Ok(())
+        });
+        match r {
+            Err(p) => viol(rep, name, "de-panic", "", p.message, &bytes, rp),
+            Ok(Err(e)) => viol(rep, name, "roundtrip", "", format!("{:?}: {}", v, e), &bytes, rp),
+            Ok(Ok(())) => rep.count(&format!("borrowed through deserialize_any/{}", name)),
+        }
+    }
+    let mut keep: Vec<Box<[u8]>> = Vec::new();
+    let keep_ptr: *mut Vec<Box<[u8]>> = &mut keep;
+    // each call pushes one buffer; the boxes never move, `keep` outlives every decoded value
+    macro_rules! go {
+        ($name:expr, $v:expr, $p:expr) => {
+            rt(rep, $name, &$v, &rp, &$p, unsafe { &mut *keep_ptr })
+        };
+    }
+    match i % 4 {
+        0 => {
+            go!("BorrowUntagged", BorrowUntagged::S(&s), |w: &BorrowUntagged| match w { BorrowUntagged::S(x) => vec![(x.as_ptr(), x.len())], _ => vec![] });
+            go!("BorrowUntagged", BorrowUntagged::P { k: &s, v: i as i8 }, |w: &BorrowUntagged| match w { BorrowUntagged::P { k, .. } => vec![(k.as_ptr(), k.len())], _ => vec![] });
+            go!("BorrowUntagged", BorrowUntagged::N(i as u32), |_w: &BorrowUntagged| vec![]);
+        }
+        1 => {
+            go!("BorrowIntTag", BorrowIntTag::A { s: &s, n: i as u16 }, |w: &BorrowIntTag| match w { BorrowIntTag::A { s, .. } => vec![(s.as_ptr(), s.len())], _ => vec![] });
+            go!("BorrowIntTag", BorrowIntTag::B { b: &b }, |w: &BorrowIntTag| match w { BorrowIntTag::B { b } => vec![(b.as_ptr(), b.len())], _ => vec![] });
+        }
+        2 => {
+            go!("BorrowFlat", BorrowFlat { id: i as u8, inner: BorrowFlatInner { s: &s, b: &b } }, |w: &BorrowFlat| vec![(w.inner.s.as_ptr(), w.inner.s.len()), (w.inner.b.as_ptr(), w.inner.b.len())]);
+        }
+        _ => {
+            go!("BorrowAdj", BorrowAdj::S(&s), |w: &BorrowAdj| match w { BorrowAdj::S(x) => vec![(x.as_ptr(), x.len())], _ => vec![] });
+            go!("BorrowAdj", BorrowAdj::T(i as u8, &s), |w: &BorrowAdj| match w { BorrowAdj::T(_, x) => vec![(x.as_ptr(), x.len())], _ => vec![] });
+        }
+    }
+}
+
 pub fn run(a: &Args, rep: &mut Report) {
     let n: u64 = if a.thorough() { 400_000 } else { 12_000 };
     macro_rules! m {
@@ -646,7 +758,8 @@ pub fn run(a: &Args, rep: &mut Report) {
     for_each_stype!(m);
     for i in 0..n {
         if a.mine(i) {
-            borrowed_case(rep, a.seed, i)
+            borrowed_case(rep, a.seed, i);
+            borrowed_any_case(rep, a.seed, i);
         }
     }
 }
@@ -656,6 +769,9 @@ pub fn replay(a: &Args, rep: &mut Report) {
     let i: u64 = a.replay[1].parse().unwrap();
     if want == "Borrowed" {
         return borrowed_case(rep, a.seed, i);
+    }
+    if want == "BorrowedAny" {
+        return borrowed_any_case(rep, a.seed, i);
     }
     macro_rules! m {
         ($t:ty) => {
